@@ -1,4 +1,75 @@
-(* C01 placeholder, replaced below *)
-From TV Require Import Base.
-Theorem C01_placeholder : True. Proof. exact I. Qed.
-Print Assumptions C01_placeholder.
+(* C01 -- Linux shell commands get exactly the given args; output and status are exact.
+   Property theorems only; proofs are in ProofC01.v and ProofSession.v.  sh_words (the shell's word splitting) and
+   tty_echo (the line discipline's echo) are environment models, validated against the real bash, dash and a real
+   pty on every run (see Sh.v). *)
+From TV Require Import Base Utf8 Regex Channel ChannelLemmas Hush Session ProofSession Sh ProofC01.
+
+(* (1) no word splitting, globbing, expansion or injection: the shell splits the line tbot sends into exactly the
+       given strings, one argument per string -- for every list of strings without NUL *)
+Theorem C01_quoting_is_lossless :
+  forall args, Forall nonul args -> sh_words (sh_escape args) = Some args.
+Proof. exact sh_quote_roundtrip. Qed.
+Print Assumptions C01_quoting_is_lossless.
+
+Theorem C01_bytes_sent_split_into_the_arguments :
+  forall args, Forall nonul args -> sh_words (utf8_enc (sh_escape args)) = Some (map utf8_enc args).
+Proof. exact sh_sent_roundtrip. Qed.
+Print Assumptions C01_bytes_sent_split_into_the_arguments.
+
+(* (2) the read-back length is exactly the length of the tty's echo, for EVERY payload (control bytes, CR, LF
+       doubling) once the caret notation is off ... *)
+Theorem C01_readback_length_is_echo_length :
+  forall s, length (tty_echo false s) = readback_len s.
+Proof. exact echo_len_noctl. Qed.
+Print Assumptions C01_readback_length_is_echo_length.
+
+(* ... and with ECHOCTL only for payloads without control characters (the defect repaired by `stty -echoctl`) *)
+Theorem C01_readback_length_with_echoctl_refuted :
+  exists s, length (tty_echo true s) <> readback_len s.
+Proof. exact echo_len_ctl_refuted. Qed.
+Print Assumptions C01_readback_length_with_echoctl_refuted.
+
+(* (3) exec: for EVERY fragmentation and timing of the console's reaction and every partial-write behaviour the
+       result is exactly the program's output (CR LF normalised) and the status printed for `echo $?`; exactly the two
+       lines are sent and the channel is in sync again (no residue for the next command) *)
+Theorem C01_exec_exact :
+  forall args P c st1 st2 sts out ds,
+  insync c -> prompt c = Some (SLit P) -> P <> [] ->
+  Forall nonul args ->
+  any_in (blacklist c) (utf8_enc (sh_escape args) ++ [CR]) = false ->
+  any_in (blacklist c) (ECHO_Q ++ [CR]) = false ->
+  wf_pend st1 -> cat st1 = tty_echo false (utf8_enc (sh_escape args) ++ [CR]) ++ onlcr out ++ P ->
+  prompt_only_at_end P (onlcr out) ->
+  wf_pend st2 -> cat st2 = tty_echo false (ECHO_Q ++ [CR]) ++ (ds ++ [CR; LF]) ++ P ->
+  all_digits ds -> ds <> [] -> prompt_only_at_end P (ds ++ [CR; LF]) ->
+  exists c',
+    lx_exec args (st1 :: st2 :: sts) c = (XOk (dec_val ds) (text (onlcr out)), c', sts) /\
+    insync c' /\
+    wr (io c') = wr (io c) ++ (utf8_enc (sh_escape args) ++ [CR]) ++ (ECHO_Q ++ [CR]) /\
+    sh_words (utf8_enc (sh_escape args)) = Some (map utf8_enc args) /\
+    prompt c' = prompt c /\ blacklist c' = blacklist c.
+Proof. exact lx_exec_exact. Qed.
+Print Assumptions C01_exec_exact.
+
+(* (3b) the normalised text of ONLCR output is the output itself (ASCII output without CR) *)
+Theorem C01_crlf_normalisation :
+  forall out, Forall (fun b => (b < 128)%N /\ b <> CR) out -> text (onlcr out) = out.
+Proof. exact text_onlcr_ascii. Qed.
+Print Assumptions C01_crlf_normalisation.
+
+(* (4) exec0 raises CommandFailure iff the status is non-zero; test returns status == 0 *)
+Theorem C01_exec0_and_test :
+  forall args sts c st out c' sts',
+  lx_exec args sts c = (XOk st out, c', sts') ->
+  lx_exec0 args sts c = (if (st =? 0)%Z then X0Ok out else X0Failure st, c', sts') /\
+  lx_test args sts c = (TBool (st =? 0)%Z, c', sts').
+Proof. exact lx_exec0_iff. Qed.
+Print Assumptions C01_exec0_and_test.
+
+(* (5) a forbidden byte anywhere in the line: IllegalDataException, nothing is sent, the channel is untouched *)
+Theorem C01_forbidden_byte_rejected :
+  forall args sts c,
+  any_in (blacklist c) (utf8_enc (sh_escape args) ++ [CR]) = true ->
+  lx_exec args sts c = (XErr EIllegal, c, sts).
+Proof. exact lx_blacklist_rejects. Qed.
+Print Assumptions C01_forbidden_byte_rejected.
